@@ -11,6 +11,7 @@ import (
 	"strings"
 
 	"golang.org/x/tools/go/packages"
+	"golang.org/x/tools/go/ssa"
 )
 
 // eachFuncDecl calls f for every function declaration with a body in the module's non-test files.
@@ -810,4 +811,77 @@ func init() {
 	doc := "what the machine carries from one instruction to the next: the Vm fields written while instructions execute (by handlers, their callees or the dispatch loop — not by the construction before the first instruction) are the six reviewed ones, identified by type (bool, int32, py.Object, vmStatus, py.ExceptionInfo ×2); a generator is resumed on a fresh Vm, so any further such field is lost across a yield"
 	register(&Rule{ID: "C05.R8", Prop: "C05", Floor: 6, Doc: doc, Run: runVmCarriedState})
 	register(&Rule{ID: "C02.R10", Prop: "C02", Floor: 6, Doc: doc + " (a pending break/continue/return travelling through a finally clause is such state)", Run: runVmCarriedState})
+}
+
+// ---- C04.R9: **kwargs receives a dictionary made for the call ----
+//
+// Python's binding algorithm gives the callee's **kwargs parameter a new dict (and builds the keyword dict of a
+// f(**d) call from d's items): the callee may mutate it, the caller may keep using d. Two sites must both hold: the VM
+// call sequence never hands the ** operand itself to the callee (the clause of C13.R1/C17.R1, registered here too), and
+// in EvalCode no parameter's dictionary (kws, kwdefs, globals, locals) becomes a Python object of the frame — every
+// StringDict that EvalCode turns into an object was allocated by EvalCode. Either site alone hides the other's slip.
+func runKwargsFresh(c *Ctx, r *Rep) {
+	a := newAliasAn(c)
+	ln := newLitNamer(c)
+	kwargsFreshness(c, a, ln, r)
+	evalCode := c.Func("vm", "EvalCode")
+	if evalCode == nil {
+		r.undecided("vm.EvalCode|kwdict", token.NoPos, "vm.EvalCode not found")
+		return
+	}
+	fn := c.SSAFunc(evalCode)
+	if fn == nil {
+		r.undecided("vm.EvalCode|kwdict", token.NoPos, "no SSA for vm.EvalCode")
+		return
+	}
+	r.analysed("vm.EvalCode")
+	n := 0
+	var visit func(f *ssa.Function)
+	seen := map[*ssa.Function]bool{}
+	visit = func(f *ssa.Function) {
+		if seen[f] {
+			return
+		}
+		seen[f] = true
+		for _, b := range f.Blocks {
+			for _, in := range b.Instrs {
+				mi, ok := in.(*ssa.MakeInterface)
+				if !ok || !strings.HasSuffix(mi.X.Type().String(), "/py.StringDict") {
+					continue
+				}
+				n++
+				var from []string
+				for at := range a.t[mi.X] {
+					if at.fn == fn && !at.elem {
+						from = append(from, paramName(fn, at.idx))
+					}
+				}
+				sort.Strings(from)
+				from = uniq(from)
+				key := "vm.EvalCode|dictionary made an object"
+				pos := mi.Pos()
+				if !pos.IsValid() {
+					pos = fn.Pos()
+				}
+				if len(from) > 0 {
+					r.bad(key, pos, "EvalCode turns a dictionary it was passed (%s) into an object of the callee's frame: the **kwargs parameter must be a new dict — with the caller's own dict there, a callee that changes its **kwargs changes the caller's mapping (f(**d) twice sees different keywords), and later changes of the mapping show inside the callee", strings.Join(from, ", "))
+				} else {
+					r.ok(key, pos, "allocated by EvalCode")
+				}
+			}
+		}
+		for _, anon := range f.AnonFuncs {
+			visit(anon)
+		}
+	}
+	visit(fn)
+	if n == 0 {
+		r.undecided("vm.EvalCode|kwdict", token.NoPos, "EvalCode makes no StringDict an object: the **kwargs slot is no longer visible to this rule")
+	}
+}
+
+func init() {
+	register(&Rule{ID: "C04.R9", Prop: "C04", Floor: 2,
+		Doc: "**kwargs receives a dictionary made for the call: the VM call sequence never hands the ** operand itself to the callee (storage-sharing analysis A9, the clause of C13.R1), and every StringDict that EvalCode turns into an object of the callee's frame was allocated by EvalCode — none of its parameters' dictionaries (kws, kwdefs, globals, locals) flows there",
+		Run: runKwargsFresh})
 }
